@@ -61,6 +61,7 @@ type Entry struct {
 	Key *Node
 	Val *Node
 	Seq uint64
+	h   uint64 // hash of the key string (lazily computed; selection in large maps)
 }
 
 func (n *Node) IsContainer() bool { return n.Kind == KArr || n.Kind == KMap }
@@ -150,11 +151,19 @@ func (n *Node) sortedEntries() []*Entry {
 		return n.sorted
 	}
 	defer func() { n.sortedGen = n.gen }()
-	out := make([]*Entry, 0, len(n.M))
-	for _, e := range n.M {
-		out = append(out, e)
+	type dec struct {
+		ks string
+		e  *Entry
 	}
-	sort.Slice(out, func(i, j int) bool { return keyString(out[i].Key) < keyString(out[j].Key) })
+	tmp := make([]dec, 0, len(n.M))
+	for ks, e := range n.M {
+		tmp = append(tmp, dec{ks, e})
+	}
+	sort.Slice(tmp, func(i, j int) bool { return tmp[i].ks < tmp[j].ks })
+	out := make([]*Entry, len(tmp))
+	for i := range tmp {
+		out[i] = tmp[i].e
+	}
 	n.sorted = out
 	return out
 }
